@@ -29,6 +29,10 @@ def _copy_tree(dst: pathlib.Path, root=REPO):
         return [n for n in names if n == '__pycache__' or n.endswith(('.xz', '.bin', '.pyc'))]
 
     shutil.copytree(root / 'cirbo', dst / 'cirbo', ignore=ignore)
+    # the shipped data files are large and never mutated: link them instead of copying
+    for f in (root / 'cirbo' / 'data').glob('*.xz'):
+        (dst / 'cirbo' / 'data').mkdir(exist_ok=True)
+        os.symlink(f, dst / 'cirbo' / 'data' / f.name)
 
 
 def _apply(root: pathlib.Path, m) -> str:
